@@ -212,10 +212,22 @@ def apply_op(d, defn, op):
     def elem(gi, vi, ei):
         return vec(gi, vi)._elements[defn["groups"][gi]["vectors"][vi]["elements"][ei]["key"]]
 
+    def value_for(el, spec):
+        # "reuse": the driver keeps ONE values.BLOB object per element (a frame buffer), refills it and publishes it again
+        from indi.device import values
+        if isinstance(spec, dict) and spec.get("reuse") and "b" in spec and isinstance(el._value, values.BLOB):
+            cur = el._value
+            cur.binary = bytes.fromhex(spec["b"])
+            cur.format = spec.get("fmt")
+            return cur
+        return py_value(spec)
+
     if op[0] == "a":
-        elem(op[1], op[2], op[3]).value = py_value(op[4])
+        el = elem(op[1], op[2], op[3])
+        el.value = value_for(el, op[4])
     elif op[0] == "s":
-        elem(op[1], op[2], op[3]).set_value(py_value(op[4]))
+        el = elem(op[1], op[2], op[3])
+        el.set_value(value_for(el, op[4]))
     elif op[0] == "st":
         vec(op[1], op[2]).state_ = op[3]
     elif op[0] == "ev":
@@ -352,7 +364,7 @@ def random_value(rng, kind, hostile=False):
         return {"t": rng.choice(["On", "Off"])}
     if kind == "light":
         return {"t": rng.choice(STATES)}
-    return rng.choice([{"b": bytes(rng.randrange(256) for _ in range(rng.randint(0, 9))).hex(), "fmt": rng.choice([".fits", ".x", ""])}, None])
+    return rng.choice([{"b": bytes(rng.randrange(256) for _ in range(rng.randint(0, 9))).hex(), "fmt": rng.choice([".fits", ".x", ""]), "reuse": rng.random() < 0.4}, None])
 
 
 def wrong_value(rng, kind):
